@@ -12,6 +12,7 @@
 \*         xml    XML document, no namespaces        (xml:lang, no pragma, an "iframe" is just an element)
 \*         xmlmix XML document whose root is in no namespace (so: not XHTML) around XHTML-namespaced elements: no pragma, and an XHTML
 \*                iframe element is just an element (the iframe boundary belongs to HTML / XHTML documents)
+\*         mixedf like mixed, but the element named iframe is the foreign one (svg > iframe): not an inline frame, language is inherited through it
 \*         mixed  HTML-parser document with namespaces (html5lib style): XHTML elements, the generic
 \*                elements from position 3 on in a foreign namespace (xml:lang for them)
 EXTENDS CssDecl, TLC, Json, SequencesExt
@@ -43,12 +44,13 @@ NsAt(pos) == CASE c.mode \in {"html", "xml"} -> <<>>
                [] c.mode = "xmlmix" -> IF pos = 1 THEN <<>> ELSE XHTML
                [] c.mode = "xhtml" -> XHTML
                [] c.mode = "mixed" -> IF NameAt(pos) = Div /\ pos >= 3 THEN Foreign ELSE XHTML
+               [] c.mode = "mixedf" -> IF NameAt(pos) = Iframe THEN Foreign ELSE XHTML      \* an element NAMED iframe in a foreign namespace is no boundary
 HtmlishAt(pos) == c.mode = "html" \/ NsAt(pos) = XHTML
 
 Plain(key, v) == [k |-> key, ns |-> <<>>, local |-> key, v |-> v, list |-> FALSE]
 XmlAt(v) == [k |-> XmlLang, ns |-> XMLNS, local |-> LangAttrName, v |-> v, list |-> FALSE]
 \* the key is spelled LANG at position 2 of the documents made by an HTML parser
-KeyAt(pos) == IF pos = 2 /\ c.mode \in {"html", "mixed"} THEN UpLang ELSE LangAttrName
+KeyAt(pos) == IF pos = 2 /\ c.mode \in {"html", "mixed", "mixedf"} THEN UpLang ELSE LangAttrName
 RealAt(pos, v) == IF HtmlishAt(pos) THEN Plain(KeyAt(pos), v) ELSE XmlAt(v)
 AttrsAt(pos, ch) ==
     CASE ch = "absent" -> <<>>
